@@ -201,6 +201,7 @@ def run_C15(ctx, R):
 def run_C16(ctx, R):
     from .rules import tab, lst, out, utilsx
     _scoped(ctx, R, utilsx.tab18, C16_ENTRIES, 3)
+    _per_config(ctx, R, utilsx.esc4)
     _per_config(ctx, R, _inl(utilsx.numu))
     from .rules import numcls as _numcls
     _per_config(ctx, R, lambda units, r: _numcls.num4(units, r, unit_names=('cJSON_Utils.c',)))
@@ -243,6 +244,7 @@ def run_C17(ctx, R):
     _per_config(ctx, R, _inl(utilsx.gen1))
     _per_config(ctx, R, _inl(utilsx.gen2))
     _per_config(ctx, R, utilsx.esc2)
+    _per_config(ctx, R, utilsx.esc4)
     _per_config(ctx, R, utilsx.dig1)
     from .rules import tree
     _scoped(ctx, R, tree.tab3, C17_ENTRIES, 4)
@@ -527,6 +529,7 @@ def run_C03(ctx, R):
 def run_C07(ctx, R):
     from .rules import own, tree, lst
     _per_config(ctx, R, _inl(own.own5))
+    _per_config(ctx, R, own.own10)
     _per_config(ctx, R, own.del1)
     _per_config(ctx, R, own.dbl1)
     _per_config(ctx, R, _inl(own.own6))
